@@ -212,7 +212,7 @@ def _get_module_namespace(module):
       A list of strings, one per namespace component.  This list can be formatted
       as appropriate by the caller.
     """
-    namespace_attr = ir_util.get_attribute(module.attribute, "namespace")
+    namespace_attr = _get_cpp_attribute(module.attribute, "namespace")
     if namespace_attr and namespace_attr.string_constant.text:
         namespace = namespace_attr.string_constant.text
     else:
@@ -1850,7 +1850,7 @@ def _get_enum_value_names(enum_value):
     """Determines one or more enum names based on attributes."""
     cases = ["SHOUTY_CASE"]
     name = enum_value.name.name.text
-    if enum_case := ir_util.get_attribute(
+    if enum_case := _get_cpp_attribute(
         enum_value.attribute, attributes.Attribute.ENUM_CASE
     ):
         cases = _split_enum_case_values(enum_case.string_constant.text)
@@ -1956,7 +1956,7 @@ def _generate_header_guard(file_path):
 def _add_missing_enum_case_attribute_on_enum_value(enum_value, defaults):
     """Adds an `enum_case` attribute if there isn't one but a default is set."""
     if (
-        ir_util.get_attribute(enum_value.attribute, attributes.Attribute.ENUM_CASE)
+        _get_cpp_attribute(enum_value.attribute, attributes.Attribute.ENUM_CASE)
         is None
     ):
         if attributes.Attribute.ENUM_CASE in defaults:
@@ -2021,6 +2021,13 @@ def _offset_source_location_column(source_location, offset):
 def _is_cpp_back_end_attribute(attr):
     """True if `attr` is a `(cpp)` attribute; other back ends' are not ours to check."""
     return ir_data_utils.reader(attr).back_end.text == "cpp"
+
+
+def _get_cpp_attribute(attribute_list, name):
+    """Like ir_util.get_attribute, but only sees `(cpp)` attributes."""
+    return ir_util.get_attribute(
+        [attr for attr in attribute_list if _is_cpp_back_end_attribute(attr)], name
+    )
 
 
 def _verify_namespace_attribute(attr, source_file_name, errors):
